@@ -23,6 +23,7 @@ type c19Case struct {
 	Nodes        []string // m1 m2 m3 foreign unknown malformed
 	FailAt       int      // k-th terminate call fails (0 = none)
 	Pending      int      // instances the ASG is still launching: desired = instances + Pending
+	Lifecycle    string   // aws.lifecycle of the group
 }
 
 func c19Check(c *h.Collector, p c19Case) {
@@ -30,7 +31,7 @@ func c19Check(c *h.Collector, p c19Case) {
 	report := func(sig, msg string) {
 		c.Report(h.Found{Violation: h.Violation{Prop: "C19", Sig: sig, Msg: fmt.Sprintf("%+v: %s", p, msg)}, Scenario: "c19.provider", Case: p})
 	}
-	env, err := newProvEnv(sim.ASG{Name: "asg-g1", Min: int64(p.Min), Max: 20}, p.Desired, cloudprovider.AWSNodeGroupConfig{})
+	env, err := newProvEnv(sim.ASG{Name: "asg-g1", Min: int64(p.Min), Max: 20}, p.Desired, cloudprovider.AWSNodeGroupConfig{Lifecycle: p.Lifecycle})
 	if err != nil {
 		report("C19/setup", err.Error())
 		return
@@ -103,6 +104,9 @@ func c19Check(c *h.Collector, p c19Case) {
 		}
 		if len(terms) > 0 {
 			report("C19/write-when-refused", fmt.Sprintf("request breaching the minimum still issued %d terminate calls", len(terms)))
+		}
+		if _, nig := err.(*cloudprovider.NodeNotInNodeGroup); nig {
+			report("C19/not-in-group-before-minimum-refusal", "a request that is refused as a whole for the group minimum was answered with the (fatal) not-in-group error")
 		}
 		return
 	}
@@ -191,6 +195,10 @@ func c19Grid(t *testing.T, tier string, shard, shards int, c *h.Collector) {
 							continue
 						}
 						c19Check(c, c19Case{Min: min, Desired: desired, Nodes: s, FailAt: fail})
+						if fail == 0 {
+							c19Check(c, c19Case{Min: min, Desired: desired, Nodes: s, Lifecycle: "spot"})
+							c19Check(c, c19Case{Min: min, Desired: desired, Nodes: s, Lifecycle: "on-demand"})
+						}
 						if len(s) <= 2 {
 							c19Check(c, c19Case{Min: min, Desired: desired, Nodes: s, FailAt: fail, Pending: 1})
 						}
